@@ -13,8 +13,8 @@ BASE = dict(n=(60, 1200))
 OPTS = {
     "C01": dict(BASE, p_after=0.5, p_shared_after=0.3, after_needs_products=False, p_skip=0.03, p_persist=0.03, p_k=0.05, p_m=0.03,
                 p_dry=0.05, p_prio=0.4, max_tasks=8, nprods=[1, 1, 0, 0, 2]),
-    "C02": dict(BASE, n=(90, 2000), p_skip=0.04, p_fault=0.08, p_dry=0.08, max_builds=6, p_persist=0.06),
-    "C03": dict(BASE, n=(90, 2000), p_skip=0.03, p_fault=0.05, p_dry=0.05, p_force=0.06, max_builds=6, min_builds=3),
+    "C02": dict(BASE, n=(90, 2000), p_pyval=0.35, p_skip=0.04, p_fault=0.08, p_dry=0.08, max_builds=6, p_persist=0.06),
+    "C03": dict(BASE, n=(90, 2000), p_pyval=0.3, p_skip=0.03, p_fault=0.05, p_dry=0.05, p_force=0.06, max_builds=6, min_builds=3),
     "C04": dict(BASE, nprods=[1, 2, 2, 3, 0], p_fault=0.3, p_maxfail=0.4, p_skip=0.03, p_k=0.05, p_m=0.03, p_dry=0.04, max_tasks=8, p_after=0.3,
                 after_needs_products=False),
     "C06": dict(BASE, p_shared_after=0.15, p_skip=0.15, p_skipif=0.2, p_k=0.45, p_m=0.35, p_mark=0.5, p_after=0.35, after_needs_products=False,
